@@ -18,7 +18,7 @@ import ast
 import itertools
 
 from ..absint import Interp, Raised, Record, Unsupported
-from ..astx import atoms, call_name, expand, kwarg, last
+from ..astx import dep_slice, atoms, call_name, expand, kwarg, last
 from ..index import AnchorError, parent, walk_shallow
 from ..selftest import Twin
 from ._engine import CL, CL_REL
@@ -50,6 +50,8 @@ def _init_field(mrp, cls: str) -> str:
 
 def run(chk) -> None:
     repo = chk.repo
+    from ._engine import engine_view
+    chk.extra["helpers_inlined"] = engine_view(repo)
     mrp = repo.module(RP)
     cases = 0
     # ---------------------------------------------------------------- R1 truth tables (exhaustive for 1..3 operands)
@@ -248,24 +250,34 @@ def run(chk) -> None:
     sk = kwarg(w[0], "seed")
     chk.ob("C07.R3", "_ComposableRetryPolicy.next forwards seed to the wait strategy", sk is not None and ast.unparse(sk) == "seed", m=mrp, node=w[0], fn=nxt, instance="forwards-seed:policy", reason=f"seed={ast.unparse(sk) if sk is not None else None}")
     ms, sr = repo.func(f"{CL}:_process_step_result_tick")
-    seeds = [s for s in walk_shallow(sr) if isinstance(s, ast.Assign) and isinstance(s.targets[0], ast.Name) and "seed" in s.targets[0].id and "sha" in ast.unparse(s.value)]
-    chk.floor("C07.R3", "jitter seed derivations in the reducer", len(seeds), 1)
-    for s in seeds:
-        names = {x.id for x in ast.walk(s.value) if isinstance(x, ast.Name)} - {"int", "hashlib", "None"}
-        attrs = {ast.unparse(x) for x in ast.walk(s.value) if isinstance(x, ast.Attribute) and not ast.unparse(x).startswith("hashlib")}
-        srcs = {n for n in names} | attrs
-        impure = [x for x in ast.walk(s.value) if isinstance(x, ast.Call) and (call_name(x) or "").split(".")[0] in ("time", "random", "uuid", "os", "secrets")]
-        ok = not impure and {"run_id", "failures"} <= names and any("step_name" in a for a in attrs)
-        chk.ob("C07.R3", "the jitter seed is a pure function of (run_id, step name, failure count)", ok, m=ms, node=s, fn=sr, instance="seed:derivation", reason=f"seed expression depends on {sorted(srcs)}")
     passes = [c for c in ast.walk(sr) if isinstance(c, ast.Call) and isinstance(c.func, ast.Attribute) and c.func.attr == "next"]
+    chk.floor("C07.R3", "retry-policy next() calls in the reducer", len(passes), 1)
+    seed_exprs: list[tuple[ast.Call, ast.AST]] = []
     for c in passes:
         star = [k for k in c.keywords if k.arg is None]
         direct = kwarg(c, "seed")
         ok = direct is not None
+        if direct is not None:
+            seed_exprs.append((c, direct))
         if star:
             d = expand(star[0].value, c, depth=1)
             ok = isinstance(d, ast.IfExp) and "seed" in ast.unparse(d.test) and isinstance(d.body, ast.Dict) and any(isinstance(k, ast.Constant) and k.value == "seed" for k in d.body.keys)
+            if ok:
+                seed_exprs += [(c, v) for k, v in zip(d.body.keys, d.body.values) if isinstance(k, ast.Constant) and k.value == "seed"]
         chk.ob("C07.R3", "the reducer hands the seed to every policy that accepts one", ok, m=ms, node=c, fn=sr, instance="seed:passed", reason="retries.next is called without the seed")
+    # what the handed-over seed may depend on (dependence slice through the reducer's locals, whatever the path)
+    hashed = 0
+    for c, e in seed_exprs:
+        sl = dep_slice(sr, e, stop=("run_id", "failures"))
+        calls = [call_name(x) or ast.unparse(x.func) for x in sl.calls()]
+        if any("sha" in n or "md5" in n or "blake" in n for n in calls):
+            hashed += 1
+        impure = [n for n in calls if n.split(".")[0] in ("time", "random", "uuid", "os", "secrets", "id") or n in ("id", "hash")]
+        attrs = sl.attrs()
+        ok = not impure and {"run_id", "failures"} <= sl.leaves and any(a.endswith(".step_name") for a in attrs) and not (sl.leaves - {"run_id", "failures", "tick", "hashlib", "int", "str", "None"})
+        chk.ob("C07.R3", "the jitter seed is a pure function of (run_id, step name, failure count)", ok, m=ms, node=c, fn=sr, instance="seed:derivation",
+               reason=f"the seed handed to the policy depends on {sorted(sl.leaves)} via calls {sorted(set(calls))}")
+    chk.floor("C07.R3", "jitter seed derivations in the reducer", hashed, 1)
 
 
 def _bounded_by_max(e: ast.AST, mod=None, _depth: int = 2) -> bool:
